@@ -502,6 +502,17 @@ def check_map(ctx, prog):
                     if cc.get('k') != 'bin' or const_val(cc['y']) != 0 or strip(cc['x']).get('id') not in idx_vars:
                         return False
                     return (cc.get('op') == '>=' and pol is False) or (cc.get('op') == '<' and pol is True)
+                if not dec:
+                    # any spelling of the decoded position: evaluates to -i-1 for every negative i
+                    import bounded, bytesets
+                    try:
+                        by_id, by_text = bounded.atoms_of(prog, f, e['a'][0])
+                        src_ids = [i_ for i_ in by_id if i_ in idx_vars]
+                        src_txt = [t_ for t_, n_ in by_text.items() if isinstance(n_, dict) and n_.get('pq') == 'asl::Map::indexOf']
+                        if len(src_ids) + len(src_txt) == 1 and len(by_id) + len(by_text) == 1:
+                            dec = all(bounded.Bound(prog, f, dict((i_, iv) for i_ in src_ids), dict((t_, iv) for t_ in src_txt)).ev(e['a'][0]) == -iv - 1 for iv in (-1, -2, -3, -7))
+                    except bytesets.Undecidable:
+                        pass
                 if not dec and pos.get('k') == 'var' and pos.get('id') in idx_vars:
                     # `i = -i-1; a.insert(i, ..)`: the index variable itself was turned into the insert position just before
                     order_ = dict((id(x), k_) for k_, x in enumerate(g.order))
@@ -535,7 +546,12 @@ def check_map(ctx, prog):
         ctx.analysed(f)
         rem = [e for e in fn_exprs(f) if e.get('k') == 'call' and e.get('pq') == 'asl::Array::remove']
         g = q.Guarded(f)
-        okk = len(rem) == 1 and strip(rem[0]['a'][0]).get('k') == 'var' and any(kind == 'if' and pol is True and strip(c).get('op') == '>=' and const_val(strip(c)['y']) == 0 for c, pol, kind in g.of(rem[0]))
+        okk = False
+        if len(rem) == 1 and strip(rem[0]['a'][0]).get('k') == 'var':
+            import bounded
+            iv_ = strip(rem[0]['a'][0])['id']
+            runs = dict((v_, bounded.admitted3(bounded.Bound(prog, f, {iv_: v_}, {}), g.of(rem[0]), g, relevant=lambda c: any(w.get('k') == 'var' and w.get('id') == iv_ for w in walk_expr(q.expand(f, c, bools_only=True))))) for v_ in (-3, -1, 0, 1, 4))
+            okk = all((r is True) == (v_ >= 0) for v_, r in runs.items()) and None not in runs.values()
         ctx.check(okk, 'C02.map', f['pq'], 'remove:deletes the found index', fwhere(f), 'removes index i only when i >= 0', 'Map::remove does not delete exactly the index found by indexOf (%s)' % f['q'])
     ctx.floor('C02.map', n, 6)
     # comparators
